@@ -491,6 +491,16 @@ pub fn typed(kind: &str, data: &[u8], pfx: &str, panics: &mut Vec<String>) -> Va
                     let _ = $view(&used, data, pfx).done();
                     let s2 = guarded(|| used.scramble()).ok();
                     v["fresh_same"] = json!(fv == mine && s1.is_some() && s1 == s2);
+                    // Clone / PartialEq of a parsed value: a clone reads like the original, equals it, and two
+                    // parses of the same bytes are equal (before and after their accessors have been used)
+                    let cl = guarded(|| {
+                        let c = used.clone();
+                        let (mut cv, _) = $view(&c, data, pfx).done();
+                        cv.as_object_mut().map(|o| o.remove("again"));
+                        let c2 = <$T>::parse(data).unwrap().clone();
+                        cv == mine && c == used && c2 == c && used == fresh && !(c != used)
+                    });
+                    v["clone_same"] = json!(cl.unwrap_or(false));
                 }
                 v
             }};
